@@ -213,6 +213,7 @@ DEFAULTS = [
     ("C01", "VariableDurationTask", "min_duration", 0, {}), ("C01", "VariableDurationTask", "max_duration", None, {}),
     ("C01", "VariableDurationTask", "allowed_durations", None, {"max_duration": 4}), ("C01", "ZeroDurationTask", "optional", False, {}),
     ("C02", "Worker", "productivity", 1, {}), ("C02", "CumulativeWorker", "productivity", 1, {"size": 2}),
+    ("C08", "CumulativeWorker", "cost", "zero_cost", {"size": 2}),
     ("C02", "SelectWorkers", "nb_workers_to_select", 1, {}), ("C02", "SelectWorkers", "kind", "exact", {}),
     ("C03", "TaskPrecedence", "offset", 0, {}), ("C03", "TaskPrecedence", "kind", "lax", {}), ("C03", "TaskStartAfter", "kind", "lax", {}),
     ("C03", "TaskEndBefore", "kind", "lax", {}), ("C03", "TaskStartAt", "optional", False, {}), ("C03", "OrderedTaskGroup", "kind", "lax", {}),
@@ -240,7 +241,7 @@ def default_shape(prop, cname, arg, value, other):
         if cname == "ForceScheduleNOptionalTasks" and arg == "kind":
             kw["nb_tasks_to_schedule"] = 1
         if explicit:
-            kw[arg] = value
+            kw[arg] = ps.ConstantFunction(value=0) if value == "zero_cost" else value
         obj = cls(name="X", **kw)
         if cname.endswith("Task"):
             # give the new task something to do so that its parameters matter
@@ -250,6 +251,9 @@ def default_shape(prop, cname, arg, value, other):
         elif cname in ("Worker", "CumulativeWorker"):
             t = ps.VariableDurationTask(name="XT", work_amount=3, max_duration=6)
             t.add_required_resource(obj)
+            if arg == "cost":  # the total cost of the resource, under a name both builds share
+                ind = ps.IndicatorResourceCost(list_of_resources=[obj])
+                ps.ConstraintFromExpression(name="observe_cost", expression=z3.Int("observed_cost") == ind._indicator_variable)
         elif cname == "SelectWorkers":
             ps.FixedDurationTask(name="XT", duration=2).add_required_resource(obj)
         return pb
